@@ -2,7 +2,7 @@ CHECK = {
     "pkg": ".", "tags": "e2e_testing", "hide": ["interface_emit_test.go"],
     "files": ["netsim/ns_core_test.go", "netsim/ns_world_test.go", "netsim/ns_history_test.go", "netsim/c09_test.go"],
     "run": "^TestC09", "env": {"GOMAXPROCS": "1", "GODEBUG": "asyncpreemptoff=1"},
-    "quick": {"scale": 1, "shards": 1, "timeout": 900},
+    "quick": {"scale": 1, "shards": 4, "timeout": 900},
     "thorough": {"scale": 6, "shards": 12, "timeout": 2400},
     "engine": "E-netsim",
     "technique": "rapid-generated multi-node histories over real nodes in a synctest bubble; hostmap binding invariant after every step",
